@@ -136,8 +136,18 @@ def run_case(ck: Check, case: dict):
         kw["history_depth"] = hist
         if case.get("dest") is not None:
             kw["destination_state"] = list(case["dest"])
+    search = g.beam_search
+    if case.get("warm"):
+        # one BeamSearchAlgorithm object reused: earlier searches (same parameters, other start states) must not matter
+        from cayleypy.algo import BeamSearchAlgorithm
+
+        alg = BeamSearchAlgorithm(g)
+        for ws in case["warm"]:
+            algos.call(alg.search, **dict(kw, start_state=list(ws)))
+        search = alg.search
+        ck.count("algorithm object reused after %d earlier searches" % len(case["warm"]))
     with ArgsortRecorder() as rec:
-        st, res = algos.call(g.beam_search, **kw)
+        st, res = algos.call(search, **kw)
     unpruned = width > len(ctx.states)
     ck.case(["beam", gd.key(), cfg, {k: case[k] for k in case if k not in ("gd", "cfg")}], True, sample={k: case[k] for k in case if k not in ("gd",)} | {"gd_tag": gd.tag, "true_dist": d})
     ck.traces += 1
@@ -200,6 +210,15 @@ def run_case(ck: Check, case: dict):
     mpath = None if tail.strip() == "nopath" else [int(x) for x in tail.split()[1:]]
     if (mf == "1") != res.path_found or (res.path_found and int(ml) != res.path_length):
         ck.correspondence_break("beam: model and implementation differ (found / length) under the recorded choices", dict(rep, model=m[:200], impl={"found": res.path_found, "len": res.path_length}))
+        # search for a property-level failure next to the disagreement: the same case with an unpruned beam and enough
+        # steps (exactness is then claimed), and with a width-1 / short-budget beam (soundness)
+        if not case.get("_amplified"):
+            big = len(ctx.states) * max(1, len(gd.gens)) + 5
+            need = (d if d is not None else 0) + len(ctx.layers) + 1
+            for wv, sv in ((big, max(steps, need)), (big, d if d is not None else steps), (1, max(steps, need)), (width, max(steps, need))):
+                if ck.enough():
+                    break
+                ck.guard(run_case, ck, dict(case, width=wv, steps=sv, _amplified=True))
     elif not res.path_found and mode == "advanced" and int(ml) != res.path_length:
         ck.count("drift:advanced not-found step count differs (non-binding)")
     elif res.path is not None and mpath != res.path:
@@ -253,6 +272,7 @@ def gen_case(ck, cap):
             "pseed": rng.randrange(10**6),
             "ball_nohash": rng.random() < 0.25,
             "ball_store": rng.choice([1, 2, 3, 5]),
+            "warm": [list(rng.choice(orbit)) for _ in range(rng.randint(1, 3))] if rng.random() < 0.3 else None,
         }
         return c
     raise RuntimeError("no case")
